@@ -449,6 +449,44 @@ def side_smiles(its_graphs):
     return out
 
 
+def default_tpl_ok(tn, te):
+    """The template-side hypotheses of the default-mode capstone theorems (proof/C03_ReactorSpec.v default_tpl_okb), computed
+    independently on the JSON form of the template as written (nodes [id, G5, H5], edges [u, v, oG, oH, so] in half-units):
+    well formed, bonds join its atoms, same element on both sides, and the template condition: with R = explicit hydrogens
+    that have a non-hydrogen neighbour on both sides and K = non-hydrogen atoms, every h in R has as many product-side as
+    reactant-side bonds to K, and the atoms outside R keep the total charge."""
+    ids = [n for n, _, _ in tn]
+    G = {n: g for n, g, _ in tn}
+    H = {n: h for n, _, h in tn}
+    ok = len(set(ids)) == len(ids)
+    seen = set()
+    for u, v, a, b, _ in te:
+        k = frozenset((u, v))
+        if u == v or k in seen or a < 0 or b < 0:
+            ok = False
+        seen.add(k)
+        if u not in G or v not in G:
+            return 0
+    if not ok or any(G[n][0] != H[n][0] for n in ids):
+        return 0
+
+    def heavy_nbr(side, h):
+        el = G if side == 0 else H
+        return any((a if side == 0 else b) > 0 and h in (u, v) and el[v if u == h else u][0] != "H" for u, v, a, b, _ in te)
+
+    def bonded(side, k, h):
+        for u, v, a, b, _ in te:
+            if {u, v} == {k, h}:
+                return (a if side == 0 else b) > 0
+        return False
+    R = [h for h in ids if G[h][0] == "H" and heavy_nbr(0, h) and heavy_nbr(1, h)]
+    K = [k for k in ids if G[k][0] != "H"]
+    for h in R:
+        if sum(bonded(1, k, h) for k in K) != sum(bonded(0, k, h) for k in K):
+            return 0
+    return 1 if sum(H[n][3] - G[n][3] for n in ids if n not in R) == 0 else 0
+
+
 def _gsig(g):
     """value of a graph (nodes / edges with all attributes), for equality of repeated reads"""
     return (sorted((repr(n), repr(sorted(d.items(), key=repr))) for n, d in g.nodes(data=True)),
